@@ -373,7 +373,7 @@ func respKeyID(key string) string {
 }
 
 type respSeen struct {
-	Method, Path, RawQuery, Host string
+	Method, Path, RawQuery, Host, RequestURI string
 	Header                       http.Header
 	Body                         []byte
 }
@@ -402,7 +402,7 @@ func newRespFakeAPI() *respFakeAPI {
 			return
 		}
 		a.mu.Lock()
-		a.seen = append(a.seen, respSeen{Method: r.Method, Path: r.URL.Path, RawQuery: r.URL.RawQuery, Host: r.Host,
+		a.seen = append(a.seen, respSeen{Method: r.Method, Path: r.URL.Path, RawQuery: r.URL.RawQuery, Host: r.Host, RequestURI: r.RequestURI,
 			Header: r.Header.Clone(), Body: body})
 		reply := a.reply
 		a.mu.Unlock()
